@@ -380,6 +380,45 @@ def _dbcheck(arch):
     return arch, found, None
 
 
+_AFTER = r"""
+import io, sys
+import osaca.osaca as oo
+def go(argv):
+    parser = oo.create_parser()
+    args = parser.parse_args(argv)
+    oo.check_arguments(args, parser)
+    buf = io.StringIO()
+    try:
+        oo.run(args, output_file=buf)
+    finally:
+        args.file.close()
+    return buf.getvalue()
+arch, imp, kind, kernel = sys.argv[1:5]
+go(["--arch", arch, "--import", kind, imp])
+go(["--arch", arch, kernel])
+sys.stdout.write(go(["--arch", arch, "--db-check", kernel]))
+"""
+
+
+def _dbcheck_after(job):
+    """--db-check in a process that has imported benchmark results into the same model and analysed a kernel with
+    it before: the counts are still those of the model FILE"""
+    arch, imp, kind, kernel = job
+    import subprocess
+
+    try:
+        p = subprocess.run([env.PY, "-B", "-c", _AFTER, arch, imp, kind, kernel], env=env.child_env(None, None), cwd="/",
+                           stdout=subprocess.PIPE, stderr=subprocess.PIPE, timeout=600)
+    except Exception as ex:
+        return arch, None, pc.exc_text(ex)
+    out = p.stdout.decode("utf-8", "replace")
+    found = {m.group(3).split()[0]: (int(m.group(1)), int(m.group(2))) for m in _DBCHECK.finditer(out)}
+    if p.returncode != 0 or len(found) != 3:
+        last = (p.stderr.decode("utf-8", "replace").strip().splitlines() or ["rc=%d" % p.returncode])[-1]
+        return arch, None, "db-check after an import in the same process failed: %s" % last[:200]
+    return arch, found, None
+
+
 # ---------------------------------------------------------------------------------- R3
 def r3_shipped(run, tier):
     files = pc.model_files(ALL_ARCHS + env.EMPTY_ARCHS)
@@ -434,8 +473,14 @@ def r3_shipped(run, tier):
     ctx = multiprocessing.get_context("fork")
     with ctx.Pool(min(16, len(jobs))) as pool:
         db_async = pool.map_async(_dbcheck, [a for a in full_archs])
+        tf = os.path.join(env.REPO, "tests", "test_files")
+        after_jobs = [("zen1", os.path.join(tf, "ibench_import_x86.dat"), "ibench", os.path.join(tf, "kernel_x86.s")),
+                      ("tx2", os.path.join(tf, "asmbench_import_aarch64.dat"), "asmbench", os.path.join(tf, "kernel_aarch64.s"))]
+        after_jobs = [j for j in after_jobs if j[0] in full_archs]
+        after_async = pool.map_async(_dbcheck_after, after_jobs)
         results = pool.map(_arch_job, sorted(jobs, key=lambda j: -len(j[1])))
         dbres = db_async.get()
+        afterres = after_async.get()
     byid = {c["id"]: c for c in cases}
     n_costed = 0
     for res in results:
@@ -481,8 +526,8 @@ def r3_shipped(run, tier):
                              res["arch"], res["arch"], " ".join(rec["opts"]), what, rec["err"], rec["where"]),
                          {"arch": res["arch"], "lines": [l[2] for l in rec["lines"]], "opts": rec["opts"], "error": rec["err"],
                           "kind": "pipeline"})
-    for arch, found, err in dbres:
-        c = {"id": "counts:" + arch, "kind": "counts", "es": per_file[arch]["es"]}
+    for tagname, arch, found, err in [("counts:", a, f, e) for a, f, e in dbres] + [("counts-after-import:", a, f, e) for a, f, e in afterres]:
+        c = {"id": tagname + arch, "kind": "counts", "es": per_file[arch]["es"]}
         if err:
             c["err"] = err
         else:
@@ -523,7 +568,8 @@ def r3_shipped(run, tier):
         c = allcases[cid]
         detail = rest[0] if rest else ""
         if c["kind"] in ("counts", "loaded"):
-            run.fail("C15:%s:%s" % (clause, cid.split(":")[1]), "%s: %s %s (observed %s)" % (
+            where = cid.split(":")[1] if not cid.startswith("counts-after-import") else "after-import-" + cid.split(":")[1]
+            run.fail("C15:%s:%s" % (clause, where), "%s: %s %s (observed %s)" % (
                 cid, clause, detail, c.get("obs") or c.get("err") or ""), {"id": cid, "clause": clause, "obs": c.get("obs")})
             continue
         m = meta[cid]
